@@ -1,10 +1,11 @@
 import Driver.Util
 open Lean Replicat
-namespace Driver
-
+namespace Driver.HAccess
 /-- requests `access.*` -/
 def handleAccess (op : String) (j : Json) : Except String Json := do
   match op with
   | _ => throw s!"unknown op {op}"
 
-end Driver
+end Driver.HAccess
+
+def Driver.handleAccess := Driver.HAccess.handleAccess
